@@ -14,7 +14,7 @@ for s in $seeds; do
   p=$(python3 -c "import json;print(json.load(open('seeded/$s/meta.json'))['property'])")
   wt=/tmp/seedr-$s-$$
   git -C /repo worktree add -q --detach $wt HEAD 2>/dev/null || { echo "$s $p WORKTREE-FAILED"; continue; }
-  if ! git -C $wt apply --3way seeded/$s/patch.diff >/dev/null 2>&1 || [ -n "$(git -C $wt diff --name-only --diff-filter=U)" ]; then
+  if ! git -C $wt apply --3way /verif/seeded/$s/patch.diff >/dev/null 2>&1 || [ -n "$(git -C $wt diff --name-only --diff-filter=U)" ]; then
     echo "$s $p NO-LONGER-APPLIES (repo $head)" | tee -a seeded/REGRESSION.txt
     git -C /repo worktree remove --force $wt
     continue
